@@ -214,4 +214,18 @@ fire("c14-flag-conditional", ["C14"], MSG, "        self._immutable = True  # on
 silent("c14-message-text", ["C14"], [(MSG, 'f"Object is immutable. Updates to {name} not permitted after initialisation."', 'f"Immutable object: cannot set {name}."')], "message text is free")
 silent("c14-flag-renamed", ["C14"], [(MSG, "_immutable", "_frozen")], "flag renamed consistently")
 
+# ----------------------------------------------------------------------------- C13
+fire_multi("c13-index-default-arg", ["C13"], [(MSG, "    def _do_attributes(self):", "    def _do_attributes(self, index=[]):"), (MSG, "        index = []  # array of (nested) group indices\n", "")], "index stack shared across parses: a failed parse leaves its depth behind")
+fire_multi("c13-class-level-satmap", ["C13"], [(MSG, '    """RTCM Message Class."""\n', '    """RTCM Message Class."""\n\n    _satmap = {}\n    _cellmap = {}\n'), (MSG, "        self._satmap = {}\n        nsat = 0", "        nsat = 0"), (MSG, "        self._satmap = None\n        self._cellmap = None\n", "")], "satellite map shared by all messages and threads")
+fire("c13-pdict-pop", ["C13"], MSG, "            for anam in pdict:  # process each attribute in dict\n", "            pdict.pop(\"_scratch\", None)\n            for anam in pdict:  # process each attribute in dict\n", "definition table mutated during a parse")
+fire("c13-module-cache", ["C13"], MSG, 'BOOL = "B"\n', 'BOOL = "B"\n_DEFCACHE = {}\n\n\ndef _remember(identity, pdict):\n    _DEFCACHE[identity] = pdict\n    return pdict\n', "module-level cache written from the parse path")
+fire("c13-lru-cache", ["C13"], MSG, "    def _get_dict(self) -> dict:", "    @lru_cache(maxsize=32)\n    def _get_dict(self) -> dict:")
+fire("c13-table-annotated", ["C13"], MSG, "        adef = pdict[anam]  # get attribute definition\n", "        adef = pdict[anam]  # get attribute definition\n        if isinstance(adef, tuple) and isinstance(adef[1], dict):\n            adef[1].setdefault(\"_visited\", \"\")\n", "group dict of the shared definition mutated")
+fire("c13-prnmap-filled", ["C13"], MSG, "                self._satmap[nsat] = prnmap.get(idx, NA)", "                self._satmap[nsat] = prnmap.setdefault(idx, NA)", "lookup table grows as a side effect of parsing")
+fire("c13-reader-remembers", ["C13", "C05"], RDR, "        raw_data = hdr + hdr3 + payload + crc\n", "        raw_data = hdr + hdr3 + payload + crc\n        self._last = raw_data\n", "reader keeps per-frame state")
+fire("c13-global-counter", ["C13"], MSG, "        offset = 0  # payload offset in bits\n", "        global BOOL\n        BOOL = \"B\"\n        offset = 0  # payload offset in bits\n")
+fire("c13-msgids-write", ["C13"], MSG, "        except KeyError:\n            return False", "        except KeyError:\n            RTCM_MSGIDS[self.identity] = \"\"\n            return False", "unknown ids memoised into the message-id table")
+silent("c13-local-copy-mutated", ["C13"], [(MSG, "        adef = pdict[anam]  # get attribute definition\n", "        adef = pdict[anam]  # get attribute definition\n        scratch = dict(pdict)\n        scratch[\"_x\"] = 1\n")], "mutating a fresh copy is harmless")
+silent("c13-instance-cache", ["C13"], [(MSG, "        self._cellmap = None\n", "        self._cellmap = None\n        self._seen = []\n        self._seen.append(1)\n")], "per-instance state is not shared")
+
 VARIANTS = V
